@@ -583,6 +583,8 @@ impl Tera {
             HashMap::with_capacity(self.templates.len());
         // Track which template defined each component: component_name -> (tpl_name, priority)
         let mut component_sources: HashMap<&str, (&str, usize)> = HashMap::new();
+        // And which template defined it at each priority, to find duplicates at any level
+        let mut component_by_priority: HashMap<(&str, usize), &str> = HashMap::new();
 
         // 1st loop: find parents of each template and check for duplicate components
         // Sort so error messages (circular include chains, etc.) are deterministic
@@ -595,24 +597,25 @@ impl Tera {
             for component_name in tpl.components.keys() {
                 let current_priority = self.get_template_priority(&tpl.name);
 
+                // Same priority = duplicate error, whether or not a better definition exists:
+                // comparing only against the best one seen so far made this depend on how the
+                // template names happen to sort
+                if let Some(existing_name) = component_by_priority.insert(
+                    (component_name.as_str(), current_priority),
+                    tpl.name.as_str(),
+                ) {
+                    let mut names = [existing_name, tpl.name.as_str()];
+                    names.sort_unstable();
+                    return Err(Error::message(format!(
+                        "Component `{component_name}` is defined in both `{}` and `{}`",
+                        names[0], names[1]
+                    )));
+                }
+
                 match component_sources.get(component_name.as_str()) {
-                    Some(&(existing_name, existing_priority)) => {
-                        if current_priority < existing_priority {
-                            // Current has higher priority (lower number), override
-                            component_sources.insert(component_name, (&tpl.name, current_priority));
-                        } else if current_priority > existing_priority {
-                            // Existing has higher priority, keep it
-                        } else {
-                            // Same priority = duplicate error
-                            let mut names = [existing_name, tpl.name.as_str()];
-                            names.sort_unstable();
-                            return Err(Error::message(format!(
-                                "Component `{component_name}` is defined in both `{}` and `{}`",
-                                names[0], names[1]
-                            )));
-                        }
-                    }
-                    None => {
+                    // Existing has higher priority (lower number), keep it
+                    Some(&(_, existing_priority)) if existing_priority < current_priority => {}
+                    _ => {
                         component_sources.insert(component_name, (&tpl.name, current_priority));
                     }
                 }
